@@ -83,7 +83,10 @@ func (e *Env) Misbehaviour(cid string, h1, h2 *ibctm.Header, rev1, rev2 uint64) 
 	if err != nil {
 		panic(err)
 	}
-	return e.Do(M{"f": "misb", "cid": cid, "h1": HdrJSON(h1, rev1), "h2": HdrJSON(h2, rev2), "chainEq": h1.Header.ChainID == h2.Header.ChainID,
+	j1, j2 := HdrJSON(h1, rev1), HdrJSON(h2, rev2)
+	j1["basicOK"] = j1["basicOK"].(bool) && libCommitOK(h1)
+	j2["basicOK"] = j2["basicOK"].(bool) && libCommitOK(h2)
+	return e.Do(M{"f": "misb", "cid": cid, "h1": j1, "h2": j2, "chainEq": h1.Header.ChainID == h2.Header.ChainID,
 		"v1": e.OracleCommitTrusting(cid, h1), "v2": e.OracleCommitTrusting(cid, h2), "raw": Hex(bz)})
 }
 
